@@ -43,9 +43,11 @@ type Step struct {
 type PipeCase struct {
 	Flavour  string `json:"flavour"` // standard-shell, standard-netconf, telnet, system-ssh-shell, system-rawpeer
 	ReadSize int    `json:"read_size"`
-	Steps    []Step `json:"steps"`
-	Duplex   bool   `json:"duplex"`   // last two steps run concurrently in both directions
-	CloseBy  string `json:"close_by"` // client, peer
+	// SockMS > 0 (crypto/ssh flavours): the socket timeout, instead of 5 s
+	SockMS  int    `json:"sock_ms,omitempty"`
+	Steps   []Step `json:"steps"`
+	Duplex  bool   `json:"duplex"`   // last two steps run concurrently in both directions
+	CloseBy string `json:"close_by"` // client, peer
 	// Early (telnet): the peer starts sending at once, i.e. during the client's option
 	// negotiation window, instead of waiting for it to end.
 	Early bool `json:"early,omitempty"`
@@ -137,6 +139,20 @@ func genPipe(t *rapid.T) PipeCase {
 			// longer than the telnet socket timeout (160 ms): an idle session is not a dead one
 			PauseMS: rapid.SampledFrom([]int{0, 0, 0, 0, 0, 400}).Draw(t, "pauseMS"),
 		})
+	}
+
+	// the crypto/ssh flavours now and then with a socket timeout of one second and a peer that
+	// thinks longer than that: the socket timeout bounds connecting, not the life of an idle session
+	if strings.HasPrefix(c.Flavour, "standard-") && rapid.IntRange(0, 4).Draw(t, "shortSock") == 0 {
+		c.SockMS = 1000
+
+		for i := range c.Steps {
+			if c.Steps[i].Dir == "p2c" {
+				c.Steps[i].PauseMS = 1300
+
+				break
+			}
+		}
 	}
 
 	return c
@@ -318,6 +334,10 @@ func runPipe(c PipeCase) ev.Verdict {
 			options.WithSystemTransportOpenBin("/usr/bin/ssh"),
 		}
 
+		if c.SockMS > 0 && ttype == transport.StandardTransport {
+			opts = append(opts, options.WithTimeoutSocket(time.Duration(c.SockMS)*time.Millisecond))
+		}
+
 		if strings.HasSuffix(c.Flavour, "-netconf") {
 			opts = append(opts, func(o interface{}) error {
 				if a, ok := o.(*transport.SSHArgs); ok {
@@ -484,6 +504,12 @@ func runPipe(c PipeCase) ev.Verdict {
 
 				if ck.err != nil {
 					return ev.Fail("%s: Read failed before the session was up: %v (got %q)", c.Flavour, ck.err, inbuf)
+				}
+
+				// the rest of the marker is there but not the byte it starts with: the first bytes of
+				// the session are bytes like any other
+				if i := bytes.Index(inbuf, []byte(syncMarker[1:])); i >= 0 && (i == 0 || inbuf[i-1] != syncMarker[0]) {
+					return ev.Fail("%s read size %d: the peer's marker %q arrived without its first byte (got %q)", c.Flavour, c.ReadSize, syncMarker, inbuf)
 				}
 			case <-deadline:
 				if c.Flavour == "telnet" {
